@@ -143,7 +143,10 @@ def run_entry(e, quick, acc):
                 if fc == "discriminator" and isinstance(v, int) and 0 <= v <= 255:
                     continue  # a valid discriminator value legitimately selects another definition
                 if fc == "group_size" and isinstance(v, int) and 1000 < v < (1 << (8 * f.size)):
-                    continue  # a legitimate large count only costs time (65,535 members)
+                    # a legitimate large count mostly costs time; keep the field maximum once per definition:
+                    # a payload that outgrows the 2-byte length field must be refused like any other overflow
+                    if not (vclass == "max" and pbf and f.size == 2):
+                        continue
                 site = f"{fc}|{vclass}"
                 st, out = judge(e, base_kw, {f.name: v}, pbf, site)
                 acc.evaluations += 1
